@@ -328,6 +328,7 @@ namespace cds { namespace gc { namespace dhp {
             retired_block* free_block = pRec->retired_.current_block_->next_;
             if ( free_block ) {
                 pRec->retired_.current_block_->next_ = nullptr;
+                pRec->retired_.list_tail_ = pRec->retired_.current_block_;
                 while ( free_block ) {
                     retired_block* next = free_block->next_;
                     retired_allocator_.free( free_block );
